@@ -62,7 +62,7 @@ LEVEL_NOTE = ('Trusted: NumPy 1.26 (the reference is NumPy on raw arrays of the 
               'code are detected by the quick tier, the other two are not '
               'observable through the public API.')
 DESIGN_REF = 'DESIGN.md section 5, C17'
-BUDGET = {'quick': 8000, 'thorough': 100000}
+BUDGET = {'quick': 16000, 'thorough': 150000}
 TOLERANCES = {
     'values': 'bit-identical to the NumPy result (NaN entries compared by '
               'position only)',
